@@ -1,0 +1,24 @@
+//go:build verif
+
+package api
+
+// Contracts of the b6vc verifier (/verif): //@ comment blocks keyed by
+// function (or interface method) name and loop ordinal.
+
+// ---- C26: the evaluator reports an error iff applying the change failed ----------
+// Everything that produces the value is havocked (nothing is assumed about the
+// VM); the contract of EvaluateExpression only relates its own result to what
+// Change.Apply returned, through two ghost variables.
+
+//@ func Simplify
+//@   havoc
+//@ func Evaluate
+//@   havoc
+//@ func (*Context).FillFromOptions
+//@   havoc
+
+//@ func (*Evaluator).EvaluateExpression
+//@   ghostvar applied = false
+//@   ghostvar applyFailed = false
+//@   requires e.Lock != nil && e.Worlds != nil
+//@   ensures implies(applied, (result1 != nil) == applyFailed)
